@@ -15,6 +15,7 @@
 #include "ccl/lang/EntityTermContext.hpp"
 #include "ref_refscan.h"
 #include "ref_utf8.h"
+#include <map>
 #ifndef N
 #define N 3
 #endif
@@ -134,6 +135,46 @@ extern "C" void harness_main() {
   }
   checkLaws(text, ctx, true);
   if (info.kind == ref::REF_INVALID) sym_reach("invalid");
+#elif PART == 5
+  // a term context that CHANGES between resolutions: X2's term mentions X1, X3's term mentions X2; texts referring to them are
+  // resolved, then a term is edited and its dependants refreshed (what Thesaurus does), then the same texts are resolved again.
+  // Oracle: a fresh context built from the final raw term texts.
+  struct DynCtx final : EntityTermContext {
+    std::map<std::string, LexicalTerm> terms;
+    const LexicalTerm* At(const std::string& e) const override { const auto it = terms.find(e); return it == terms.end() ? nullptr : &it->second; }
+    bool Contains(const std::string& e) const override { return terms.count(e) != 0; }
+  };
+  static const char* const WORDS[] = {"Alpha", "Gamma", "@{X9|nomn}"};
+  static const char* const FORMS[] = {"nomn", "sing,gent", "plur,ablt"};
+  DynCtx dyn;
+  dyn.terms["X1"].SetText(WORDS[pickN(3, "x1-term")], dyn);
+  dyn.terms["X2"].SetText("@{X1|sing,nomn} beta", dyn);
+  dyn.terms["X3"].SetText(sym_bool("x3-mentions-x2") ? "pre @{X2|" + std::string(FORMS[pickN(3, "x3-form")]) + "}" : "plain", dyn);
+  dyn.terms["X2"].SetForm(Morphology{"plur,ablt"}, "manual");
+  const std::string text = "a @{X2|" + std::string(FORMS[pickN(3, "form1")]) + "} b @{X" + (sym_bool("second-is-x3") ? "3" : "2") + "|" + std::string(FORMS[pickN(3, "form2")]) + "} c";
+  if (sym_bool("resolved-before")) { RefsManager warm(dyn); (void)warm.Resolve(text); (void)dyn.terms["X2"].GetNominalForm(); }
+  // the edit and the refresh of the dependants, in dependency order
+  switch (pickN(3, "edit")) {
+  case 0: dyn.terms["X1"].SetText(WORDS[pickN(3, "x1-new-term")], dyn); break;
+  case 1: dyn.terms["X1"].SetForm(Morphology{"sing,nomn"}, "manual-x1"); break;
+  default: dyn.terms["X2"].SetText("@{X1|sing,nomn} delta", dyn); break;
+  }
+  dyn.terms["X2"].UpdateFrom(dyn);
+  dyn.terms["X3"].UpdateFrom(dyn);
+  RefsManager now(dyn);
+  const std::string got = now.Resolve(text);
+  DynCtx fresh;
+  for (const char* e : {"X1", "X2", "X3"}) {
+    fresh.terms[e].SetText(dyn.terms[e].Text().Raw(), fresh);
+    for (const auto& [form, str] : dyn.terms[e].GetAllManual()) fresh.terms[e].SetForm(form, str);
+  }
+  for (const char* e : {"X1", "X2", "X3"}) fresh.terms[e].UpdateFrom(fresh);
+  RefsManager ref(fresh);
+  const std::string want = ref.Resolve(text);
+  if (sym_is_replay() && got != want) { sym_note(("resolved : " + got).c_str()); sym_note(("fresh    : " + want).c_str()); }
+  sym_assert(got == want, "resolution-follows-the-current-context");
+  for (const char* e : {"X2", "X3"}) sym_assert(dyn.terms[e].Nominal() == fresh.terms[e].Nominal(), "refreshed-term-equals-fresh-term");
+  sym_reach("context");
 #elif PART == 4
   // every pair of documented grammeme tags (35 x 35, in either order, also twice the same): the canonical spelling written back is
   // "@{entity|tags in the documented order, each once}" - computed here from the documented table, not from the library's ToString
